@@ -1331,7 +1331,7 @@ func c13ByteLevel(c *ctx, rng *core.Rand, shards []*core.Session) {
 		hostile := false
 		if i%300 == 11 {
 			// many merge paths, small result: parsing must stay fast
-			layers := 18 + rng.Intn(6)
+			layers := 22 + rng.Intn(4)
 			b = []byte(stackedDiamonds(layers) + fmt.Sprintf("steps:\n  - command: x\n    agents: {<<: [*l%da, *l%db]}\n", layers, layers))
 			hostile = true
 			c.res.Hist("bytes.stacked-diamonds")
@@ -1390,8 +1390,8 @@ func c13ByteLevel(c *ctx, rng *core.Rand, shards []*core.Session) {
 		var r res
 		select {
 		case r = <-ch:
-		case <-time.After(5 * time.Second):
-			c.res.Fail(core.OracleFailure{What: "Parse did not return within 5s on a mutated document", Input: string(b)})
+		case <-time.After(20 * time.Second):
+			c.res.Fail(core.OracleFailure{What: "Parse did not return within 20s on a mutated document", Input: string(b)})
 			continue
 		}
 		desc := map[string]any{"document": string(b), "mutated": true}
